@@ -13,6 +13,8 @@ import SaramaVerif.Model.BrokerProd
     bp_quiet_while_refused         the same from any reachable state that refuses the partition
     bp_bounces_in_order            bounce sequence of the partition = set part, buffer part, held message, later arrivals
     bp_bounce_order_preserving     bounced data tokens of a partition are a subsequence of its arrivals
+    bp_empty_set_needs_stale /     an empty produce set reaches the bridge only via the stale `output` variable, which
+    bp_stale_origin                arises only when waitForSpace bounces its held message (defect of the pinned code)
 
   Tie to the Go code: Driver/ProducerTrace.lean (`BPW`) replays every broker worker of every scenario through the
   same `step` and compares its actions with the hook events of the real code.
@@ -411,6 +413,17 @@ theorem handle_frame (max : Nat) (s : St) (sent : List Tok) (r : Resp) :
     · simp only [h, ↓reduceIte]
       obtain ⟨a, b, _, _, e⟩ := loop2_frame max v (o2 ++ partsOf sent) sent s
       exact ⟨a, b, e⟩
+    · simp [h]
+  | encErr o => simp [handle]
+  | connErr o1 o2 => simp [handle]
+
+theorem handle_stale (max : Nat) (s : St) (sent : List Tok) (r : Resp) : (handle max s sent r).1.stale = s.stale := by
+  cases r with
+  | verdicts v o1 o2 =>
+    unfold handle
+    by_cases h : retryTopics max v sent = true
+    · simp only [h, ↓reduceIte]
+      exact (loop2_frame max v (o2 ++ partsOf sent) sent s).2.2.2.1
     · simp [h]
   | encErr o => simp [handle]
   | connErr o1 o2 => simp [handle]
@@ -1051,6 +1064,98 @@ theorem resp_fails (max : Nat) (s : St) (sent : List Tok) (r : Resp) (still : Bo
         exact ⟨by simp [bounces, bnc, ids, List.filterMap_cons], by simp [adds, addD, htp], hnn⟩
       · simp only [↓reduceIte]
         exact ⟨by simpa [ids] using hb, n4, hnn⟩
+
+/-! ### the stale `output` variable: an EMPTY produce set can go to the broker
+
+  In brokerProducer.run the `continue` statements of the message arm skip the `if bp.timerFired ||
+  bp.buffer.readyToFlush() { output = bp.output } else { output = nil }` at the bottom of the loop.  When
+  waitForSpace handles a response that empties the buffer (drop of the failed partition, or [closing]) and the held
+  message is bounced, the loop continues with `output` still armed and hands the empty buffer to the bridge: an
+  empty ProduceRequest goes to the broker, and on a dead connection a second handleError abandons the broker
+  again (which can unregister the worker that was created in the meantime).  The model carries this as `stale`. -/
+
+/-- an empty set reaches the bridge only through the stale `output` (or from inside waitForSpace) -/
+theorem bp_empty_set_needs_stale (s : St) (hw : s.wait = none) (h : (handover s).1.sets = [[]]) (h0 : s.sets = []) :
+    s.buffer = [] ∧ s.stale = true := by
+  unfold handover at h
+  simp only [h0, List.isEmpty_nil, Bool.not_true, Bool.false_eq_true, ↓reduceIte, hw] at h
+  by_cases h2 : (s.buffer.isEmpty && !s.stale) = true
+  · simp [h2, h0] at h
+  · simp only [h2, Bool.false_eq_true, ↓reduceIte, List.cons.injEq, and_true] at h
+    refine ⟨h, ?_⟩
+    simp only [h, List.isEmpty_nil, Bool.true_and, Bool.not_eq_eq_eq_not, Bool.not_true, Bool.not_eq_false] at h2
+    exact h2
+
+/-- `output` becomes stale in exactly one way: a response handled inside waitForSpace after which the held message
+    is bounced (`continue`) -/
+theorem bp_stale_origin (max : Nat) (s : St) (i : In) (h : (step max s i).1.stale = true) :
+    s.stale = true ∨ ∃ t r still, s.wait = some t ∧ i = .resp r still ∧ (step max s i).1.wait = none := by
+  cases i with
+  | recv t ov =>
+    left
+    simp only [step, recv] at h
+    by_cases hw : s.wait.isSome = true
+    · simpa [hw] using h
+    · simp only [hw, Bool.false_eq_true, ↓reduceIte] at h
+      by_cases hs : t.kind = .syn
+      · simpa [hs] using h
+      · simp only [hs, ↓reduceIte] at h
+        by_cases hn : needsRetry s t.part = true
+        · simp only [hn, ↓reduceIte] at h
+          split at h <;> exact h
+        · simp only [hn, Bool.false_eq_true, ↓reduceIte] at h
+          by_cases hf : t.kind = .fin
+          · simpa [hf] using h
+          · cases ov <;> simp [hf] at h
+            exact h
+  | handover =>
+    left
+    simp only [step, handover] at h
+    by_cases h1 : (!s.sets.isEmpty) = true
+    · simpa [h1] using h
+    · simp only [h1, Bool.false_eq_true, ↓reduceIte] at h
+      cases hw : s.wait with
+      | none =>
+        simp only [hw] at h
+        by_cases h2 : (s.buffer.isEmpty && !s.stale) = true
+        · simpa [h2] using h
+        · simp [h2] at h
+      | some t => simp [hw] at h
+  | resp r still =>
+    simp only [step, resp] at h ⊢
+    cases hs : s.sets with
+    | nil => left; simpa [hs] using h
+    | cons sent rest =>
+      simp only [hs] at h ⊢
+      obtain ⟨_, f2, _⟩ := handle_frame max { s with sets := rest } sent r
+      have f4 := handle_stale max { s with sets := rest } sent r
+      generalize handle max { s with sets := rest } sent r = H at *
+      obtain ⟨x, acts⟩ := H
+      simp only at f2 f4 h ⊢
+      unfold recheck at h ⊢
+      cases hw : s.wait with
+      | none =>
+        rw [hw] at f2
+        simp [f2] at h
+      | some t =>
+        rw [hw] at f2
+        simp only [f2] at h ⊢
+        by_cases hn : needsRetry x t.part = true
+        · right; exact ⟨t, r, still, rfl, rfl, by simp [hn]⟩
+        · simp only [hn, Bool.false_eq_true, ↓reduceIte] at h
+          cases still
+          · simp at h
+          · left; simp only [↓reduceIte] at h; rw [← f4]; exact h
+
+/-- witness of the defect: three messages fill the buffer to Flush.MaxMessages, the set goes out, a fourth message
+    does not fit (waitForSpace); the connection dies; the buffer is bounced, the held message too; the loop then
+    hands an EMPTY set to the bridge -/
+example : (runAll 3 {} [.recv ⟨-1, 0, 0, .syn⟩ false, .recv ⟨1, 0, 0, .data⟩ false, .handover,
+      .recv ⟨2, 0, 0, .data⟩ false, .recv ⟨3, 0, 0, .data⟩ true, .resp (.connErr [] []) false, .handover]).1.sets = [[]] ∧
+    (runAll 3 {} [.recv ⟨-1, 0, 0, .syn⟩ false, .recv ⟨1, 0, 0, .data⟩ false, .handover,
+      .recv ⟨2, 0, 0, .data⟩ false, .recv ⟨3, 0, 0, .data⟩ true, .resp (.connErr [] []) false, .handover]).2 =
+      [.ackSyn 0, .add 1 0, .add 2 0, .closing, .abandon, .requeue 1 0 1 false, .requeue 2 0 1 false,
+       .requeue 3 0 1 false] := by decide
 
 theorem runAll_append (max : Nat) (s : St) (a b : List In) :
     runAll max s (a ++ b) = ((runAll max (runAll max s a).1 b).1, (runAll max s a).2 ++ (runAll max (runAll max s a).1 b).2) := by
